@@ -140,6 +140,14 @@ class SymBody:
 
             def visit_Call(self, n):
                 n = self.generic_visit(n)
+                if isinstance(n.func, ast.Name) and n.func.id == 'getattr' \
+                        and len(n.args) == 2 and not n.keywords and \
+                        isinstance(n.args[1], ast.Constant) and \
+                        isinstance(n.args[1].value, str) and \
+                        n.args[1].value.isidentifier():
+                    return ast.copy_location(ast.Attribute(
+                        value=n.args[0], attr=n.args[1].value,
+                        ctx=ast.Load()), n)
                 if depth < outer.inline_depth:
                     r = outer.inline_expr(n, f, depth)
                     if r is not None:
@@ -152,6 +160,17 @@ class SymBody:
 
             def visit_Subscript(self, n):
                 n = self.generic_visit(n)
+                # divmod(a, b)[0] -> a // b ; [1] -> a % b
+                if isinstance(n.value, ast.Call) and \
+                        isinstance(n.value.func, ast.Name) and \
+                        n.value.func.id == 'divmod' and \
+                        len(n.value.args) == 2 and \
+                        isinstance(n.slice, ast.Constant) and \
+                        n.slice.value in (0, 1):
+                    return ast.copy_location(ast.BinOp(
+                        left=n.value.args[0],
+                        op=ast.FloorDiv() if n.slice.value == 0 else ast.Mod(),
+                        right=n.value.args[1]), n)
                 # (a, b)[k] -> element
                 if isinstance(n.value, ast.Tuple) and \
                         isinstance(n.slice, ast.Constant) and \
@@ -395,9 +414,10 @@ class SymBody:
                     self.assign(x, self._project(v, k), p, node)
             else:
                 for k, x in enumerate(t.elts):
-                    self.assign(x, ast.Subscript(
-                        value=clone(v),
-                        slice=ast.Constant(value=k), ctx=ast.Load()), p, node)
+                    sub = ast.Subscript(value=clone(v),
+                                        slice=ast.Constant(value=k),
+                                        ctx=ast.Load())
+                    self.assign(x, self.S(sub, {}), p, node)
         elif isinstance(t, ast.Attribute):
             key = ast.unparse(t)
             p.env[key] = v
@@ -670,3 +690,40 @@ class SymBody:
             return [p]
         raise AnalysisError('statement outside the substitution model: ' +
                             u(st)[:60])
+
+
+def list_contents(sym, path, name, upto=None):
+    """element expressions of the list local `name` as built on a path: its
+    display / comprehension over a literal sequence, then append / extend
+    calls, in order (None when it cannot be reconstructed)"""
+    from ..astutil import clone
+    items = None
+    for k, e in enumerate(path.events):
+        if upto is not None and k >= upto:
+            break
+        if e[0] == 'bind' and e[1] == name:
+            v = e[2]
+            if isinstance(v, ast.List):
+                items = list(v.elts)
+            elif isinstance(v, ast.ListComp) and len(v.generators) == 1 and \
+                    not v.generators[0].ifs and \
+                    isinstance(v.generators[0].iter, (ast.Tuple, ast.List)) \
+                    and isinstance(v.generators[0].target, ast.Name):
+                tgt = v.generators[0].target.id
+                items = [sym.S(v.elt, {tgt: x})
+                         for x in v.generators[0].iter.elts]
+            else:
+                return None
+        elif e[0] == 'call' and items is not None and \
+                isinstance(e[1], ast.Call) and \
+                isinstance(e[1].func, ast.Attribute) and \
+                isinstance(e[1].func.value, ast.Name) and \
+                e[1].func.value.id == name:
+            if e[1].func.attr == 'append' and len(e[1].args) == 1:
+                items.append(e[1].args[0])
+            elif e[1].func.attr == 'extend' and len(e[1].args) == 1 and \
+                    isinstance(e[1].args[0], (ast.List, ast.Tuple)):
+                items.extend(e[1].args[0].elts)
+            else:
+                return None
+    return items
